@@ -110,6 +110,17 @@ func bombBytes(spec string) []byte {
 		s = map[string]string{"classdefs-open": "", "svc-classdefs-open": "C", "cli-classdefs-open": "R"}[kind] + strings.Repeat(`c""{}`, k)
 	case "many-references-to-one-string": // a string of 8 KiB and k references to it (into bytes each one is converted)
 		s = fmt.Sprintf("a%d{s8192\"%s\"%s}", k+1, strings.Repeat("x", 8192), strings.Repeat("r1;", k))
+	case "ref-shared-maps":
+		// the "ref" domain's shape (a value under "a", a back-reference to it under "b"), the value a map of k
+		// maps each of which refers twice to the one before: linear to read, 2^k paths to anything that walks
+		// it by value (a conversion of the referred item into the typed field that copies what it shares)
+		var b strings.Builder
+		fmt.Fprintf(&b, "m2{uam%d{i1;m1{uan}", k)
+		for j := 2; j <= k; j++ {
+			fmt.Fprintf(&b, "i%d;m2{uar%d;ubr%d;}", j, j, j)
+		}
+		b.WriteString("}ubr1;}")
+		s = b.String()
 	case "error-tags": // an error tag whose message is an error tag whose message ...
 		s = strings.Repeat("E", k)
 	case "classdefs-after-an-error": // a class definition with a negative field count, then definitions without end
@@ -864,6 +875,7 @@ func build(thorough bool) spaces {
 		bomb("io", "classdefs-open", k)
 	}
 	bomb("io", "many-references-to-one-string", 3000)
+	bomb("ref", "ref-shared-maps", 40)
 	bomb("svc", "svc-list-open", abyss)
 	bomb("cli", "cli-list-open", abyss)
 	for _, k := range depths {
